@@ -94,5 +94,5 @@ Example C17_example :
   emissions (new_muxer 2) ex_ops false = [(true, 0, 0); (false, 0, 0); (true, 0, 1); (true, 0, 2)] /\
   tables_first (combine ex_ops (snd ex_run)) /\
   map (fun p => starts_with_tables (pa_pkts p)) (snd ex_run) =
-    [false; false; false; true; false; true; false; false; false; true; false; false; true].
+    [false; false; false; true; false; true; false; false; false; true; false; false; false; false; true].
 Proof. vm_compute. repeat split. Qed.
